@@ -57,6 +57,17 @@ def cases_for(rng, tier):
         for pre in ["", "pc = 0; Stat = 1;\n", "wire x : 8;\n"]:
             texts.append(pre + tail)
             texts.append(pre + tail + "\n")
+    # every hint / list-formatting path of the diagnostic renderer, with ASCII and non-ASCII names
+    for nm, other in [("zq", "ZQ"), ("é_x", "É_x"), ("x_é", "X_É"), ("日本", "日本2"), ("aé", "Aé"), ("ß", "SS"), ("ǆ", "ǅ")]:
+        texts.append("wire %s : 8; %s = 1; pc = 0; Stat = 1;\n%s = 2;\n" % (nm, nm, other))
+        texts.append("wire %s : 8; %s = 1; pc = 0; Stat = 1;\nwire q9 : 8; q9 = %s + 1;\n" % (nm, nm, other))
+        texts.append("pc = 0; Stat = 1;\n%s = 2;\n" % other)
+        texts.append("const %s = 1; pc = 0; Stat = 1;\n%s = 2;\nconst K9 = %s;\n" % (nm, nm, other))
+        texts.append("register xY { %s : 8 = %s; } pc = 0; Stat = 1;\n" % (nm, other))
+    texts.append("wire z : 8; z = [ pc == 0 : 0b11; pc == 1 : 5; pc == 2 : 0b111; 1 : 0b1 ]; pc = 0; Stat = 1;\n")
+    texts.append("mem_addr = 0; pc = 0; Stat = 1;\n")
+    texts.append("mem_addr = 0; mem_input = 1; pc = 0; Stat = 1;\n")
+    texts.append("reg_dstE = 0; pc = 0; Stat = 1;\nreg_dstM = 1;\n")
     # constant expressions (evaluated while building)
     for e in ["-0", "1/0", "0b11[3..1]", "0b11[0..5]", "(0b1 .. %s)" % ("0b" + "1" * 128), "(%s .. %s)" % ("0b" + "1" * 128, "0b" + "1" * 128), "1 << 200", "~0 + 1",
               "[ 1/0 : 1; 1 : 2 ]", "K", "K2 + 1", "0b1 & 0b11", "3[128..128]", "-(0b0)", "!(0b1[0..0])", "1 in { 1/0 }"]:
